@@ -250,6 +250,23 @@ class SliceIter:
         self.arr, self.lo, self.hi, self.rev = arr, lo, hi, rev
 
 
+class VecVal:
+    """A Vec built by the code under execution (new/push with a concrete number of pushes per path)."""
+
+    def __init__(self, items):
+        self.items = list(items)
+
+    def __repr__(self):
+        return "Vec%r" % (self.items,)
+
+
+class SliceVal:
+    """An opaque slice of which only the length is used."""
+
+    def __init__(self, length):
+        self.length = length
+
+
 class Outcome:
     def __init__(self, cond, kind, value=None, msg=""):
         self.cond, self.kind, self.value, self.msg = cond, kind, value, msg
@@ -634,6 +651,8 @@ class Exec:
                 return Int(sx.const(len(v.values)), "usize")
             if isinstance(v, Agg):
                 return Int(sx.const(len(v.fields)), "usize")
+            if isinstance(v, SliceVal):
+                return Int(v.length, "usize")
             raise Unsupported("PtrMetadata of %r" % (v,))
         # casts
         m = re.match(r"^(.*) as (.+?) \((\w+)(?:\(.*\))?\)$", rhs)
@@ -862,6 +881,8 @@ class Exec:
             return RangeIter(v.cur, v.end, v.inclusive, v.ty, v.done)
         if isinstance(v, SliceIter):
             return SliceIter(v.arr, v.lo, v.hi, v.rev)
+        if isinstance(v, VecVal):
+            return VecVal([self._reclone(f, old, new) for f in v.items])
         return v
 
     # ---- calls -----------------------------------------------------------------------------------
@@ -893,7 +914,19 @@ class Exec:
         try:
             target = self.mir.find(key)
         except KeyError:
-            raise Unsupported("call to %s (no MIR, no model)" % fn)
+            # `Type::method`: inherent impl items are printed as `module::<impl at file:span>::method`
+            meth = key.split("::")[-1]
+            cands = [it for n, it in self.mir.items.items() if it.kind == "fn" and re.search(r"<impl at [^>]*>::%s$" % re.escape(meth), n)
+                     and len(it.args) == len(args)]
+            if len(cands) > 1 and "::" in key:
+                tyname = key.split("::")[-2]
+                narrowed = [it for it in cands if any(re.search(r"\b%s\b" % re.escape(tyname), t) for _, t in it.args[:1])
+                            or (not it.args or not re.search(r"\bself\b|^&", it.args[0][1])) and re.search(r"\b%s\b" % re.escape(tyname), it.ret_type or "")]
+                if narrowed:
+                    cands = narrowed
+            if len(cands) != 1:
+                raise Unsupported("call to %s (no MIR, no model; %d impl candidates)" % (fn, len(cands)))
+            target = cands[0]
         return self._summarise(target, args)
 
     def _summarise(self, target, args):
@@ -1102,12 +1135,42 @@ def model_slice_iter_next(ex, args, fn):
     return [(sx.TRUE, "ret", _AdvanceIter(r, new, Enum("Some", [el])), "")]
 
 
+def model_vec_new(ex, args, fn):
+    return [(sx.TRUE, "ret", VecVal([]), "")]
+
+
+def model_vec_push(ex, args, fn):
+    r, item = args
+    cur = r.store[r.key] if isinstance(r, Ref) else r
+    if not isinstance(cur, VecVal):
+        raise Unsupported("push on %r" % (cur,))
+    return [(sx.TRUE, "ret", _AdvanceIter(r, VecVal(cur.items + [item]), Agg("tuple", [])), "")]
+
+
+def model_from_elem(ex, args, fn):
+    elem, n = args
+    return [(sx.TRUE, "ret", Agg("from_elem", [elem, n], tyname="vec![elem; n]"), "")]
+
+
+def model_slice_len(ex, args, fn):
+    (a,) = args
+    a = _deref(ex, a)
+    if isinstance(a, SliceVal):
+        return [(sx.TRUE, "ret", Int(a.length, "usize"), "")]
+    raise Unsupported("len of %r" % (a,))
+
+
 MODELS = {
+    r"^Vec::<.*>::new$": model_vec_new,
+    r"^Vec::<.*>::push$": model_vec_push,
+    r"^std::vec::from_elem::<.*>$": model_from_elem,
+    r"^core::slice::<impl \[u8\]>::len$": model_slice_len,
     r"core::num::<impl u\d+>::is_multiple_of$": model_is_multiple_of,
     r"core::num::<impl u\d+>::div_ceil$": model_div_ceil,
     r"core::num::<impl u\d+>::wrapping_(add|sub|mul)$": model_wrapping,
     r"^<T[IJ] as Into<u32>>::into$": model_into_u32,
     r"^<u\d+ as (From|Into)<u\d+>>::(from|into)$": model_from_widen,
+    r"^<usize as (From|Into)<u\d+>>::(from|into)$": model_from_widen,
     r"^(std|core)::cmp::min::<u\d+>$": model_min,
     r"^(std|core)::cmp::max::<u\d+>$": model_max,
     r"RangeInclusive::<u\d+>::new$": model_range_inclusive_new,
